@@ -2,14 +2,14 @@
 """Print the markdown tables of DESIGN.md §9.4 (seeded changes) and §9.5 (own mutations) from the recorded results."""
 import glob, json, os
 HERE = os.path.dirname(os.path.dirname(os.path.abspath(__file__)))
-print("| seeded change | written to break | needs, to manifest | caught by | not caught by |")
-print("|---|---|---|---|---|")
+print("| seeded change | written to break | needs, to manifest | caught by | not caught by | missed at first |")
+print("|---|---|---|---|---|---|")
 for mp in sorted(glob.glob(os.path.join(HERE, "seeded", "*", "meta.json"))):
     m = json.load(open(mp))
     caught = [f"{p} ({', '.join(v['new_keys'][:1])[:70]})" for p, v in m["checks"].items() if v["caught"]]
     missed = [p for p, v in m["checks"].items() if not v["caught"]]
     needs = m.get("needs", "")
-    print(f"| `seeded/{m['name']}` | {m['breaks_property']} | {needs} | {'; '.join(caught) or '—'} | {', '.join(missed) or '—'} |")
+    print(f"| `seeded/{m['name']}` | {m['breaks_property']} | {needs} | {'; '.join(caught) or '—'} | {', '.join(missed) or '—'} | {'yes' if m.get('missed_at_first') else ''} |")
 print()
 print("| mutation | edit | check | caught | first new key |")
 print("|---|---|---|---|---|")
